@@ -193,10 +193,18 @@ def clean_reference(base, tag, files, opts, leaf="prj"):
 # ---------------------------------------------------------------------------------------------
 
 def scenario_same_project(ctx, base, n=4, rounds=2):
+    """Each round: edit the sources, then run n commands at once on the warm tree `same/prj`.
+    Oracle 1 (T1 on the real thing): same exit codes and same outputs as a *serial twin* — a second
+    warm tree with its own cache that went through the same history with the commands run one after
+    the other.  Oracle 2: same outputs as a clean build of the same sources, whenever the clean build
+    succeeds.  (If twin and concurrent tree agree with each other but not with the clean build, the
+    deviation is not caused by concurrency: it is C04's subject — incremental vs clean — and is
+    recorded as a note, not as a C30 violation.)"""
     root = f"{base}/same/prj"
     xdg = f"{base}/same/xdg"
-    os.makedirs(root, exist_ok=True)
-    os.makedirs(xdg, exist_ok=True)
+    twin, twin_xdg = f"{base}/twin/prj", f"{base}/twin/xdg"
+    for d in (root, xdg, twin, twin_xdg):
+        os.makedirs(d, exist_ok=True)
     rng = __import__("random").Random(ctx.seed)
     files, opts = proj.base_files(), {}
     all_runs = []
@@ -208,29 +216,45 @@ def scenario_same_project(ctx, base, n=4, rounds=2):
             if rnd % 2 == 1:      # something to garbage-collect / regenerate
                 files.pop("src/alone.veryl", None)
         proj.sync_tree(root, files, opts)
+        proj.sync_tree(twin, files, opts)
         cmds = ["build"] * n if rnd == 0 else ["build", "check", "build", "build"][:n] + ["build"] * max(0, n - 4)
         runs = [Run(f"r{rnd}p{i}", [VERYL, c], root, xdg, f"{base}/same") for i, c in enumerate(cmds)]
-        with ThreadPoolExecutor(max_workers=1) as ex:
+
+        def serial_twin():
+            return [proj.run_veryl(twin, [c], twin_xdg) for c in cmds]
+        with ThreadPoolExecutor(max_workers=2) as ex:
             fref = ex.submit(clean_reference, base, f"same{rnd}", dict(files), json.loads(json.dumps(opts)))
+            ftwin = ex.submit(serial_twin)
             for r in runs:
                 r.start()
             for r in runs:
                 r.wait()
             rc_ref, ref, ref_out = fref.result()
-        snap = proj.snapshot(root)
+            twin_res = ftwin.result()
         orphans = set(proj.orphan_outputs(root, files))
-        got = {k: v for k, v in snap.items() if k not in orphans}
-        for r in runs:
+        got = {k: v for k, v in proj.snapshot(root).items() if k not in orphans}
+        got_twin = {k: v for k, v in proj.snapshot(twin).items() if k not in orphans}
+        body = {"kind": "impl!=oracle", "files": dict(files), "opts": json.loads(json.dumps(opts)), "commands": cmds,
+                "replay": f"tools/proj.py sync_tree of `files`/`opts` into a warm tree (round {rnd} of the history of seed {ctx.seed}), "
+                          f"then start {cmds} simultaneously in that directory; twin: the same commands one after the other"}
+        for r, (trc, tout) in zip(runs, twin_res):
             word_of(r)
-            if proj.panicked(r.out) or r.rc != rc_ref:
-                ctx.violation(f"same-project round {rnd}: `{' '.join(r.cmd[1:])}` #{r.tag} exited {r.rc} (clean build: {rc_ref}) while "
-                              f"{n - 1} other commands ran on the project",
-                              {"kind": "impl!=oracle", "files": files, "opts": opts, "commands": cmds, "output": r.out[-3000:],
-                               "replay": f"start {cmds} simultaneously in one project directory (tools/proj.py sync_tree)"})
-        if got != ref:
+            if proj.panicked(r.out) or r.rc != trc:
+                ctx.violation(f"same-project round {rnd}: `{' '.join(r.cmd[1:])}` #{r.tag} exited {r.rc} while {n - 1} other commands ran on "
+                              f"the project; the same command in the serial twin exited {trc}",
+                              dict(body, output=r.out[-3000:], twin_output=tout[-1500:]))
+            elif set(proj.diagnostics(r.out, root)) != set(proj.diagnostics(tout, twin)):
+                # which command of a round runs first (cold) differs between the two trees; a difference
+                # here is a cold-vs-warm difference of the printed diagnostics (C04), not a corruption
+                ctx.notes.append(f"same-project round {rnd}: #{r.tag} printed a different set of diagnostics than its serial twin "
+                                 "(cold vs warm run of the same command: C04's subject)")
+        if got != got_twin:
+            diff = sorted(set(got.items()) ^ set(got_twin.items()))[:10]
+            ctx.violation(f"same-project round {rnd}: outputs after {n} concurrent commands differ from the serial twin: {diff}", dict(body, diff=diff))
+        elif rc_ref == 0 and got != ref:
             diff = sorted(set(got.items()) ^ set(ref.items()))[:10]
-            ctx.violation(f"same-project round {rnd}: outputs after {n} concurrent commands differ from a clean build: {diff}",
-                          {"kind": "impl!=oracle", "files": files, "opts": opts, "commands": cmds, "diff": diff})
+            ctx.notes.append(f"same-project round {rnd}: concurrent tree and serial twin agree but differ from a clean build in "
+                             f"{sorted({k for k, _ in diff})} — not a concurrency effect (incremental vs clean: C04)")
         # T1 on the real processes: the intervals [lock, unlock] of .build/lock must not overlap
         spans = []
         for r in runs:
@@ -247,7 +271,8 @@ def scenario_same_project(ctx, base, n=4, rounds=2):
                 ctx.violation(f"same-project round {rnd}: {ta} and {tb} held .build/lock at the same time ({a0:.3f}-{a1:.3f} / {b0:.3f}-{b1:.3f})",
                               {"kind": "impl!=oracle", "spans": spans})
         ctx.cov.setdefault("distribution", {}).setdefault("same_project", []).append(
-            {"round": rnd, "commands": cmds, "rcs": [r.rc for r in runs], "outputs": len(got), "lock_spans_disjoint": True})
+            {"round": rnd, "commands": cmds, "rcs": [r.rc for r in runs], "twin_rcs": [x[0] for x in twin_res], "clean_build_rc": rc_ref,
+             "outputs": len(got), "equals_twin": got == got_twin, "equals_clean": (got == ref) if rc_ref == 0 else None})
         all_runs += runs
     check_inclusion(ctx, all_runs, "same-project")
     return all_runs
